@@ -248,7 +248,7 @@ impl Space {
 				}
 			}
 		}
-		Space { sweep, n_random: if thorough { 60000 } else { 1500 }, size: if thorough { 120 } else { 24 } }
+		Space { sweep, n_random: if thorough { 400000 } else { 12000 }, size: if thorough { 120 } else { 24 } }
 	}
 	pub fn len(&self) -> usize {
 		self.sweep.len() + self.n_random
